@@ -57,12 +57,14 @@ class Server:
         self.direct = direct
         os.makedirs(self.cache, exist_ok=True)
         self.base_env = {
-            'PATH': '/usr/local/bin:/usr/bin:/bin', 'HOME': root, 'LANG': 'C', 'LC_ALL': 'C', 'TMPDIR': os.path.join(root, 'tmp'),
+            'PATH': '/usr/local/bin:/usr/bin:/bin', 'HOME': root, 'LANG': 'C', 'TMPDIR': os.path.join(root, 'tmp'),
             'SCCACHE_DIR': self.cache, 'SCCACHE_SERVER_PORT': str(port), 'SCCACHE_IDLE_TIMEOUT': '0',
             'SCCACHE_DIRECT': 'true' if direct else 'false', 'SCCACHE_CACHE_SIZE': '200M',
         }
         os.makedirs(self.base_env['TMPDIR'], exist_ok=True)
         self.marker = 'SCCACHE_DIR=' + self.cache
+        # variables of the environment the SERVER is started in and that no client has: they must never reach a compiler
+        self.server_only = {}
         if pp_options is not None:
             # options of [cache.disk.preprocessor_cache_mode] only take effect when NO disk-cache variable is in the environment
             conf = os.path.join(root, 'sccache.conf')
@@ -82,7 +84,7 @@ class Server:
 
     def start(self):
         for attempt in range(6):
-            rc, out, err = run([self.sccache, '--start-server'], '/', self.env(), 60)
+            rc, out, err = run([self.sccache, '--start-server'], '/', self.env(self.server_only), 60)
             if rc == 0:
                 return
             if b'ddress in use' in err or b'ddress in use' in out:
@@ -489,6 +491,13 @@ def run_history(hid, rng, sccache, model_fn, port, verdict, n_ops, known_ids):
     cxx = compiler.endswith('++')
     direct_mode = rng.chance(1, 2)
     srv = Server(sccache, root, port, direct_mode)
+    # the server's own environment differs from its clients' in variables that matter at the compile stage
+    pool = [('LC_ALL', 'C.UTF-8'), ('SOURCE_DATE_EPOCH', '86400'), ('CPATH', os.path.join(tree, 'sdk2')),
+            ('CPLUS_INCLUDE_PATH' if cxx else 'C_INCLUDE_PATH', os.path.join(tree, 'sdk1')), ('GCC_COLORS', 'warning=01;36'),
+            ('LIBRARY_PATH', '/nonexistent'), ('SCCACHE_C_CUSTOM_CACHE_BUSTER', 'server-side')]
+    srv.server_only = dict(rng.shuffle(pool)[:rng.range(2, 4)])
+    for k in srv.server_only:
+        verdict.count('server-only-env.' + k)
     clock = [hid * 1000]
     files = gen_tree(rng, cxx)
     for rel, c in files.items():
@@ -666,6 +675,14 @@ def run_history(hid, rng, sccache, model_fn, port, verdict, n_ops, known_ids):
                           (sbase + ['-o', '-'], 'assembly to stdout again'), (sbase + ['-o', 'asm.s'], 'assembly to a named file')):
             do_compile(note_, args=a_)
         verdict.count('assembly-stage-block')
+
+        # (1a') response files with quoting: gcc / clang let a backslash escape the next character EVERYWHERE, also inside
+        #       single and double quotes (libiberty buildargv / TokenizeGNUCommandLine); whoever expands such a file must agree
+        for qi, q in enumerate([b"-D'NAME=1\\2'", b'-D"NAME=2\\3"', b'"-DNAME=4" -D\'PRE=1\\5\'', b'-DNAME=\\6 "-I" "inc"']):
+            clock[0] += 1
+            write_file(tree, 'q%d.rsp' % qi, q + (' -Iinc -Iinc2 -c %s -o rq.o\n' % fl.src).encode(), clock[0])
+            do_compile('response file with quoting %r' % q.decode(), args=['@q%d.rsp' % qi])
+        verdict.count('quoted-response-file-block')
 
         # (1b) input that is ALREADY PREPROCESSED (.i / .ii): the compiler does not preprocess it again, so neither -D nor the
         #      macro names of the dialect may touch its text; produced by a real -E run of a unit that mentions __LINE__
@@ -1078,15 +1095,50 @@ def scenario_large_objects(sid, sccache, port, verdict, known_ids, compiler):
 SCENARIOS['large_objects'] = scenario_large_objects
 
 
+def scenario_two_checkouts_coverage(sid, sccache, port, verdict, known_ids, compiler):
+    """The same project checked out twice, built with coverage instrumentation and the same RELATIVE -o in both: the object
+    embeds the absolute place of its .gcda file, so the second checkout must not get the first one's object."""
+    root = ROOT_PREFIX + '%d-s%d' % (os.getpid(), sid)
+    shutil.rmtree(root, ignore_errors=True)
+    for d in ('co1/obj', 'co2/obj'):
+        os.makedirs(os.path.join(root, d))
+    src = b'int garr[4];\nint cov(int i) { if (i > 2) return garr[1]; return garr[i]; }\n'
+    write_file(root, 'co1/cov.c', src, 1)
+    write_file(root, 'co2/cov.c', src, 1)
+    verdict.count('scenario.two-checkouts-coverage')
+    # -frandom-seed makes gcc's .gcno stamp reproducible, so that the bytes can be compared
+    flagsets = [['--coverage', '-frandom-seed=1'], ['-fprofile-arcs', '-ftest-coverage', '-frandom-seed=1', '-O1']]
+    for direct_mode in (False, True):
+        sub = 'pp' if direct_mode else 'nopp'
+        os.makedirs(os.path.join(root, sub))
+        srv = Server(sccache, os.path.join(root, sub), port, direct_mode)
+        tag = '%s %s' % (compiler, 'pp-cache' if direct_mode else 'no-pp-cache')
+        srv.start()
+        try:
+            for fs_ in flagsets:
+                args = fs_ + ['-c', 'cov.c', '-o', 'obj/cov.o']
+                for co in ('co1', 'co1', 'co2', 'co2', 'co1'):
+                    d, w = _both(srv, sccache, compiler, args, os.path.join(root, co))
+                    _compare(verdict, tag, compiler, args, d, w, 'checkout %s' % co, known_ids,
+                             replay={'scenario': 'two_checkouts_coverage', 'sid': sid, 'compiler': compiler})
+        finally:
+            srv.stop()
+            srv.kill_leftovers()
+    shutil.rmtree(root, ignore_errors=True)
+
+
+SCENARIOS['two_checkouts_coverage'] = scenario_two_checkouts_coverage
+
+
 def scenario_plan(tier):
     """(name, kwargs) list; quick runs each scenario once, thorough for every compiler"""
     plan = [('header_saved_during_compile', dict(real_compiler='gcc', cxx=False)),
             ('two_build_dirs', dict(compiler='gcc')), ('device_output', dict(compiler='gcc')),
-            ('large_objects', dict(compiler='gcc'))]
+            ('large_objects', dict(compiler='gcc')), ('two_checkouts_coverage', dict(compiler='clang'))]
     if tier == 'thorough':
         plan += [('header_saved_during_compile', dict(real_compiler='clang', cxx=False)),
                  ('header_saved_during_compile', dict(real_compiler='g++', cxx=True)),
                  ('header_saved_during_compile', dict(real_compiler='clang++', cxx=True)),
                  ('two_build_dirs', dict(compiler='clang')), ('device_output', dict(compiler='clang')),
-                 ('large_objects', dict(compiler='clang'))]
+                 ('large_objects', dict(compiler='clang')), ('two_checkouts_coverage', dict(compiler='gcc'))]
     return plan
